@@ -85,6 +85,11 @@ var windows = []window{
 	{"-1h..+10m", -time.Hour, 10 * time.Minute},
 	{"+48h..+72h", 48 * time.Hour, 72 * time.Hour},
 	{"-1h..+9d", -time.Hour, 9 * 24 * time.Hour},
+	// close to the boundary: any tolerance the gateway grants shows here
+	{"+90s..+365d", 90 * time.Second, 365 * 24 * time.Hour},
+	{"+5s..+365d", 5 * time.Second, 365 * 24 * time.Hour},
+	{"-1h..+90s", -time.Hour, 90 * time.Second},
+	{"-1h..+5s", -time.Hour, 5 * time.Second},
 }
 
 const (
